@@ -2,7 +2,10 @@
 
 package tls
 
-import "fmt"
+import (
+	"crypto"
+	"fmt"
+)
 
 // Verification hooks (build tag verif): read-only dumps of the negotiation
 // tables and thin wrappers around unexported negotiation helpers.
@@ -90,4 +93,16 @@ func ZVSelectCipherSuite(ids, supported []uint16, vers uint16, ecdheOk, ecSignOk
 		return 0, false
 	}
 	return s.id, true
+}
+
+// ZVCipherSuitesTLS13SHA384 lists the TLS 1.3 suites whose KDF hash is SHA-384
+// (a TLS 1.3 PSK is bound to the hash of the suite it was issued under).
+func ZVCipherSuitesTLS13SHA384() []uint16 {
+	out := []uint16{}
+	for _, c := range cipherSuitesTLS13 {
+		if c.hash == crypto.SHA384 {
+			out = append(out, c.id)
+		}
+	}
+	return out
 }
